@@ -33,6 +33,8 @@ def encode_array(obj):
             "type_code": obj.type_code,
         }
 
+    obj = np.asarray(obj)
+
     def default_encode(obj):
         return obj.tolist(), {}
 
